@@ -115,3 +115,26 @@ pub proof fn lemma_nals_bytes_len(v: Seq<NalUnit>, n: int)
     broadcast use lemma_be_bytes_len;
     if n > 0 { lemma_nals_bytes_len(v, n - 1); }
 }
+
+// ---- trun (8.8.8), decode side; p = start of the box in the 8-byte-header convention
+pub open spec fn trun_o3(d: Seq<u8>, p: int, flags: u32) -> int { p + 16 + (if flag_set(flags, 0x01) { 4int } else { 0 }) + (if flag_set(flags, 0x04) { 4int } else { 0 }) }
+/// start of the record of sample j
+pub open spec fn trun_rec(d: Seq<u8>, p: int, flags: u32, j: int) -> int { trun_o3(d, p, flags) + trun_samples_len(flags, j) }
+pub open spec fn trun_samples_at(d: Seq<u8>, p: int, flags: u32, du: Seq<u32>, sz: Seq<u32>, fl: Seq<u32>, ct: Seq<u32>, n: int) -> bool {
+    let o_sz = if flag_set(flags, 0x100) { 4int } else { 0 };
+    let o_fl = o_sz + (if flag_set(flags, 0x200) { 4int } else { 0 });
+    let o_ct = o_fl + (if flag_set(flags, 0x400) { 4int } else { 0 });
+    &&& (flag_set(flags, 0x100) ==> forall|j: int| 0 <= j < n ==> #[trigger] du[j] == be32(d, trun_rec(d, p, flags, j)))
+    &&& (flag_set(flags, 0x200) ==> forall|j: int| 0 <= j < n ==> #[trigger] sz[j] == be32(d, trun_rec(d, p, flags, j) + o_sz))
+    &&& (flag_set(flags, 0x400) ==> forall|j: int| 0 <= j < n ==> #[trigger] fl[j] == be32(d, trun_rec(d, p, flags, j) + o_fl))
+    &&& (flag_set(flags, 0x800) ==> forall|j: int| 0 <= j < n ==> #[trigger] ct[j] == be32(d, trun_rec(d, p, flags, j) + o_ct))
+}
+pub open spec fn trun_at(d: Seq<u8>, p: int, b: TrunBox) -> bool {
+    &&& fullbox_at(d, p, b.version, b.flags)
+    &&& b.sample_count == be32(d, p + 12)
+    &&& (flag_set(b.flags, 0x01) ==> b.data_offset == Some(be32(d, p + 16) as i32)) && (!flag_set(b.flags, 0x01) ==> b.data_offset is None)
+    &&& (flag_set(b.flags, 0x04) ==> b.first_sample_flags == Some(be32(d, p + 16 + (if flag_set(b.flags, 0x01) { 4int } else { 0 }))))
+    &&& (!flag_set(b.flags, 0x04) ==> b.first_sample_flags is None)
+    &&& trun_parsed(b)
+    &&& trun_samples_at(d, p, b.flags, b.sample_durations@, b.sample_sizes@, b.sample_flags@, b.sample_cts@, b.sample_count as int)
+}
